@@ -415,6 +415,36 @@ Definition reverse_bits32 (x : N) : N := bitrev 32 x 0.
 Definition histogram (data : list N) : list N :=
   map (fun v => N.of_nat (length (filter (N.eqb v) data))) (seqN 0 256).
 
+
+(* ------------------------------------------------------------------------- *)
+(* string hash of hash_map::SimdStringOps (src/hash_map/simd_string_ops.rs)   *)
+(* ------------------------------------------------------------------------- *)
+
+(* hash.rotate_left(5).wrapping_add(v) on u64 *)
+Definition rotl5 (h : N) : N := (h * 32) mod W64 + h / 576460752303423488.
+Definition hmix (h v : N) : N := (rotl5 h + v) mod W64.
+(* m little-endian 8-byte words from the front of bs *)
+Fixpoint hash_words (m : nat) (bs : list N) (h : N) : N :=
+  match m with
+  | O => h
+  | S k => hash_words k (skipn 8 bs) (hmix h (le_word (firstn 8 bs)))
+  end.
+(* scalar_string_hash: all whole 8-byte words, then the remaining bytes one at a time *)
+Definition hash_s (bs : list N) (h : N) : N :=
+  let m := (length bs / 8)%nat in
+  fold_left hmix (skipn (8 * m) bs) (hash_words m bs h).
+(* avx2 / sse4.2 / avx512_string_hash: vectors of m = 4 / 2 / 8 words while a whole vector remains,
+   then the scalar definition on the tail *)
+Fixpoint hash_v (m : nat) (fuel : nat) (bs : list N) (h : N) : N :=
+  match fuel with
+  | O => hash_s bs h
+  | S f => if (8 * m <=? length bs)%nat
+           then hash_v m f (skipn (8 * m) bs) (hash_words m bs h)
+           else hash_s bs h
+  end.
+Definition simd_hash (m : nat) (bs : list N) (h : N) : N :=
+  match m with O => hash_s bs h | _ => hash_v m (length bs) bs h end.
+
 (* ------------------------------------------------------------------------- *)
 (* dispatcher for harness-generated cases                                     *)
 (* ------------------------------------------------------------------------- *)
@@ -451,5 +481,6 @@ Definition run_case (op : N) (a b : list N) (k : N) : option (list Z) :=
   | 18 => Some [lex_sign a b]
   | 19 => Some (zl_of_bytes (copy_windows (width_of k) a (repeat 0 (length a))))
   | 20 => Some (zl_of_bytes (histogram a))
+  | 21 => Some [Z.of_N (simd_hash (N.to_nat (nth 0 b 0)) a k)]   (* fast_string_hash, b = [words per vector] *)
   | _ => None
   end.
